@@ -16,7 +16,7 @@ from ..util import describe
 PROP = 'C17'
 
 COUNTS = [None, 0, 1, 2, 10]
-CLUSTER_LISTS = [[], [0], [1, 0], [0, 7]]
+CLUSTER_LISTS = [[], [0], [1, 0], [0, 7], [0, 1, 0]]     # [0, 1, 0]: an id named twice is one cluster
 
 
 def imports():
@@ -96,6 +96,8 @@ def run_case(case, acc, order):
             on_bound = any(t in bounds for t in times)
             for count in COUNTS:
                 for clist in CLUSTER_LISTS:
+                    if len(set(clist)) < len(clist) and count not in (None, 1):
+                        continue        # the list with a repeated id: two count values suffice
                     for sub_chunks in (False, True):
                         even = [i for i in range(n) if i % 2 == 0]
                         # the subset is a set of ids: unsorted, possibly naming an id twice
